@@ -111,6 +111,20 @@ def oracle(case):
     return hist.check_reads(case)
 
 
+def big_case(seed, i, engine):
+    """a partition with more than rangeStreamBatch (300) live keys: full batches are flushed from append()"""
+    r = rng_for(seed, "c13big/%d" % i)
+    n = r.choice([299, 301, 650])
+    pfx = PREFIX + b"/big/"
+    border = enc(pfx + (b"%05d" % r.randint(1, n - 1)), r.choice([0, 0, hist.INIT + 5]))
+    lines = [hist.cfg_line(engine, splits=hx(border)), "fill %d %s %s" % (n, hx(pfx), hx(b"v")), "rev"]
+    a, b = PREFIX + b"/", PREFIX + b"0"
+    for R in (0, hist.INIT + n, hist.INIT + n // 2):
+        lines.append("stream %s %s %d" % (hx(enc(a, 0)), hx(enc(b, 0)), R))
+    lines.append("count %s %s" % (hx(a), hx(b)))
+    return core.Case("backend", lines, {"engine": engine, "borders": [border], "adv": []})
+
+
 def check(rep, tier, seed):
     n = 40 if tier == "quick" else 900
     cases = []
@@ -120,6 +134,7 @@ def check(rep, tier, seed):
             cases.append(gen_case(seed, i, "tikv", True))        # real mock-cluster region splits
         else:
             cases.append(gen_case(seed, i, ["memkv", "badger", "tikv"][m - 1], False))  # injected, shuffled
+    cases += [big_case(seed, i, ["memkv", "tikv", "badger"][i % 3]) for i in range(3 if tier == "quick" else 12)]
     core.run_cases(cases)
     for c in cases:
         rep.count_case(c)
